@@ -122,9 +122,16 @@ class Soap12(Soap11):
             subelts[0] = code
 
         if isinstance(inst.detail, dict):
-            detail = E('{%s}Detail' % self.ns_soap_env)
-            dict_to_etree(inst.detail, detail)
-            _append(subelts, detail)
+            try:
+                detail = E('{%s}Detail' % self.ns_soap_env)
+                dict_to_etree(inst.detail, detail)
+                _append(subelts, detail)
+
+            except (ValueError, TypeError, AssertionError) as e:
+                # Keys that are not xml names, values that xml can't carry...
+                # The code and the message can still be delivered.
+                logger.error("Fault detail %r can't be represented as xml: %r",
+                                                               inst.detail, e)
 
         elif inst.detail is None:
             pass
